@@ -25,9 +25,6 @@ theorem C20_guards_documented :
 
 /-- Every switch that `get_xvc_config_params` reads is read negated (`include = !no_…`), and the flag
     it feeds guards exactly the application of its own source in `XvcConfig::new`. -/
-def ownGuards (tbl : Table) (s : Src) : Bool :=
-  tbl.all (fun e => if e.1 = s then e.2.contains (.flag s) else !e.2.contains (.flag s) && !e.2.contains (.nflag s))
-
 theorem C20_switches_documented :
     ∀ s ∈ Gen.wired, Gen.wiring.lookup s = some true ∧ ownGuards Gen.applications s = true := by decide
 
@@ -96,21 +93,12 @@ theorem C20_disable_removes (en : Src → Bool) (pre post : List Layer) (l : Lay
   rw [List.mem_filter] at hl'
   exact hpost l' hl'.1 hl'.2
 
+-- non-vacuity of C20_disable_others_unchanged: the disabled layer (env) does not define `a`, two others do
+example : ∀ l ∈ [((.defaults, [("a", .str "d")]) : Layer), (.user, [("a", .str "u")]), (.env, [("b", .int 2)])],
+    (fun s => s != Src.env) l.1 = false → Layer.defines l "a" = none := by decide
+-- non-vacuity of C20_disable_removes: local is disabled, user is the last enabled layer defining `a`
 example : (resolve ([((.defaults, [("a", .str "d")]) : Layer), (.user, [("a", .str "u")]), (.localp, [("a", .str "l")])].filter
     (fun l => l.1 != .localp))).find? "a" = some (.str "u", .user) := by decide
-
-theorem all_congr_mem {α : Type} (l : List α) (f g : α → Bool) (h : ∀ a ∈ l, f a = g a) : l.all f = l.all g := by
-  induction l with
-  | nil => rfl
-  | cons a r ih =>
-    simp only [List.all_cons]
-    rw [h a List.mem_cons_self, ih (fun b hb => h b (List.mem_cons_of_mem _ hb))]
-
-/-- `content` never reads the include flags. -/
-theorem content_congr (p q : Params) (w : World) (hd : p.defaults = q.defaults)
-    (hp : p.projectPath = q.projectPath) (hl : p.localPath = q.localPath) (hc : p.cli = q.cli) :
-    content p w = content q w := by
-  funext s; cases s <;> simp [content, hd, hp, hl, hc]
 
 /-- The command-line switches, for every table and wiring: if every switched-off source is wired
     (negated) and its flag guards exactly its own application, then the layers `XvcConfig::new`
@@ -195,15 +183,42 @@ theorem C20_switches_exact (wiring : List (Src × Bool)) (tbl : Table) (sw : Swi
           · cases hl
         simp only [this, hs', Bool.not_false, if_true]
 
-/-- Instantiated with the regenerated tables: every combination of the switches that the code
-    actually reads removes exactly the switched-off sources. -/
-theorem C20_switches_remove_exactly (sw : Switches) (hsw : ∀ s, sw s = true → s ∈ Gen.wired)
+/-- `_partial` (K5a): instantiated with the regenerated tables, every combination of the switches
+    **that `get_xvc_config_params` actually reads** removes exactly the switched-off sources.  The
+    excluded region (`sw s` for an `s ∉ Gen.wired`) is decidable; on the unrepaired tree it is
+    `--no-project-config` and `--no-local-config`, see `C20_unwired_switch_counterexample`. -/
+theorem C20_switches_remove_exactly_partial (sw : Switches) (hsw : ∀ s, sw s = true → s ∈ Gen.wired)
     (d : Toml) (root : Path) (cli : List String) (w : World) :
     configNew Gen.applications (cliParams Gen.wiring sw d root cli) w =
       resolve ((layers Gen.applications (cliParams Gen.wiring (fun _ => false) d root cli) w).filter (fun l => !sw l.1)) := by
   unfold configNew
   rw [C20_switches_exact Gen.wiring Gen.applications sw d root cli w
     (fun s hs => C20_switches_documented s (hsw s hs))]
+
+/-- The five documented switches. -/
+def documentedSwitches : List Src := [.system, .user, .project, .localp, .env]
+
+/-- Full strength, conditional on a *decidable fact about the regenerated table* (`lib/c20.py` reads
+    the same table: when the fact is false it demands the failing replay of the unwired switch): if
+    all five documented switches are wired, EVERY combination of the five switches removes exactly
+    the switched-off sources.  (There is no switch for the defaults and for `-c` itself.) -/
+theorem C20_switches_remove_exactly (hall : documentedSwitches.all (fun s => Gen.wired.contains s) = true)
+    (sw : Switches) (hv : sw .defaults = false ∧ sw .cli = false)
+    (d : Toml) (root : Path) (cli : List String) (w : World) :
+    configNew Gen.applications (cliParams Gen.wiring sw d root cli) w =
+      resolve ((layers Gen.applications (cliParams Gen.wiring (fun _ => false) d root cli) w).filter (fun l => !sw l.1)) := by
+  apply C20_switches_remove_exactly_partial
+  intro s hs
+  simp only [documentedSwitches, List.all_cons, List.all_nil, Bool.and_true, Bool.and_eq_true, List.contains_eq_mem,
+    decide_eq_true_eq] at hall
+  cases s with
+  | defaults => rw [hv.1] at hs; cases hs
+  | cli => rw [hv.2] at hs; cases hs
+  | system => exact hall.1
+  | user => exact hall.2.1
+  | project => exact hall.2.2.1
+  | localp => exact hall.2.2.2.1
+  | env => exact hall.2.2.2.2
 
 /-- A switch that the code does not read changes nothing at all. -/
 theorem C20_unwired_switch_noop (wiring : List (Src × Bool)) (sw sw' : Switches)
@@ -258,24 +273,12 @@ theorem C20_types_kept (ls : List Layer) (k : Key) (t : Ty)
   obtain ⟨l, hm, _, hd⟩ := C20_value_from_a_source ls k v s hr
   exact h l hm v hd
 
+example : ∀ l ∈ [((.defaults, [("n", .int 4)]) : Layer), (.project, [("n", .int 8)]), (.cli, [("m", .str "x")])],
+    ∀ v, Layer.defines l "n" = some v → v.ty = Ty.int := by decide
+
 /-- A boolean written as text in `XVC_…` / `-c` comes back as the same boolean. -/
 theorem C20_parse_render_bool (b : Bool) : parseToValue (Val.render (.bool b)) = .bool b := by
   cases b <;> decide
-
-theorem renderInt_spec (i : Int) :
-    (∃ n : Nat, i = n ∧ renderInt i = renderNat n) ∨ (∃ n : Nat, i = -((n : Int) + 1) ∧ renderInt i = '-' :: renderNat (n + 1)) := by
-  cases i with
-  | ofNat n => exact Or.inl ⟨n, rfl, rfl⟩
-  | negSucc n => exact Or.inr ⟨n, by omega, rfl⟩
-
-theorem parseBoolL_renderNat (n : Nat) : parseBoolL (renderNat n) = none := by
-  cases hb : parseBoolL (renderNat n) with
-  | none => rfl
-  | some b =>
-    have hp := parseNat_renderNat n
-    rcases parseBoolL_some hb with h | h
-    · rw [h] at hp; exact absurd (parseNat_head_digit hp) (by decide)
-    · rw [h] at hp; exact absurd (parseNat_head_digit hp) (by decide)
 
 /-- An integer of the `i64` range written as text comes back as the same integer. -/
 theorem C20_parse_render_int (i : Int) (hlo : i64Min ≤ i) (hhi : i ≤ i64Max) :
@@ -303,12 +306,16 @@ theorem C20_parse_render_int (i : Int) (hlo : i64Min ≤ i) (hhi : i ≤ i64Max)
       rw [e]; simp [hlo, hhi]
     rw [this]
 
+example : parseToValueL (Val.renderL (.int (-42))) = .int (-42) ∧ (i64Min ≤ (-42 : Int) ∧ (-42 : Int) ≤ i64Max) := by decide
+
 /-- `_partial`: a string value comes back as the same string **unless** its text is a bool, `i64`
     or `f64` literal (the hypotheses are decidable).  The excluded region is exactly K5c. -/
 theorem C20_string_kept_partial (s : String)
     (hb : parseBoolL s.toList = none) (hi : parseI64L s.toList = none) (hf : isFloatLitL s.toList = false) :
     parseToValue (Val.render (.str s)) = .str s := by
   simp [parseToValue, Val.render, Val.renderL, parseToValueL, hb, hi, hf]
+
+example : parseBoolL "sha2".toList = none ∧ parseI64L "sha2".toList = none ∧ isFloatLitL "sha2".toList = false := by decide
 
 /-- A sufficient, easily recognised condition: a text that starts with a letter and is not one of
     the five keywords (case-insensitively for the float keywords) stays a string.  All string values
@@ -381,26 +388,19 @@ theorem C20_types_kept_partial (pre post : List Layer) (s : Src) (kvs : List (Ke
   rw [hround] at hdef
   exact C20_highest_wins_last pre post (s, kvs) k v hdef hpost
 
+example : parseToValue (Val.render (.bool true)) = .bool true ∧
+    lastVal [("git.auto_commit", parseToValue (Val.render (.bool true)))] "git.auto_commit" = some (parseToValue (Val.render (.bool true))) := by decide
+
 /-! ## C20.5  every key of the default configuration resolves -/
+
+/-- `toml_value_to_hashmap` on the document of the crate's own unit test. -/
+example : flatten "" (.table [("core", .table [("foo", .leaf (.str "bar")), ("val", .leaf (.int 100))])])
+    = [("core.foo", .str "bar"), ("core.val", .int 100)] := by decide
+
 
 /-- The regenerated key table is the flattening of the regenerated default document. -/
 theorem C20_default_keys_flatten :
     (flatten "" Gen.defaultToml).map (fun kv => (kv.1, kv.2.ty)) = Gen.defaultKeys := by decide
-
-theorem lastVal_isSome_of_mem (kvs : List (Key × Val)) (k : Key) (h : k ∈ kvs.map (·.1)) :
-    (lastVal kvs k).isSome = true := by
-  induction kvs with
-  | nil => simp at h
-  | cons kv rest ih =>
-    obtain ⟨k', v⟩ := kv
-    simp only [lastVal]
-    cases hl : lastVal rest k with
-    | some w => rfl
-    | none =>
-      simp only [List.map_cons, List.mem_cons] at h
-      rcases h with h | h
-      · simp [h]
-      · have := ih h; rw [hl] at this; cases this
 
 /-- For every parameter set whose default configuration is the built-in one, every world (files,
     environment, command line) and every switch setting: every default key has an effective value. -/
@@ -448,6 +448,7 @@ open Cfg in
 #print axioms Cfg.C20_disable_others_unchanged
 #print axioms Cfg.C20_disable_removes
 #print axioms Cfg.C20_switches_exact
+#print axioms Cfg.C20_switches_remove_exactly_partial
 #print axioms Cfg.C20_switches_remove_exactly
 #print axioms Cfg.C20_unwired_switch_noop
 #print axioms Cfg.C20_unwired_switch_counterexample
